@@ -63,13 +63,26 @@ class Ctx:
         self.notes.append(s)
 
 
+class _Filtered:
+    """rename table whose membership also depends on the instance key currently being recorded"""
+    def __init__(self, table, only):
+        self.table, self.only, self.key = table, only, ""
+
+    def __contains__(self, rule):
+        return rule in self.table and self.only(self.key)
+
+    def __getitem__(self, rule):
+        return self.table[rule]
+
+
 class RuleView:
     """a view of a Ctx that keeps only some rules of a borrowed rule module and records them under another rule id
     (one analysis serving a clause that two properties share)"""
 
-    def __init__(self, ctx, rename):
+    def __init__(self, ctx, rename, only=None):
         self._c = ctx
-        self._rename = dict(rename)
+        self._only = only          # optional predicate(instance key / floor text): borrow just one clause of a rule
+        self._rename = {r: n for r, n in dict(rename).items()} if only is None else _Filtered(dict(rename), only)
 
     def __getattr__(self, name):
         return getattr(self._c, name)
@@ -77,20 +90,28 @@ class RuleView:
     def facts(self, profile="dbg"):
         return self._c.facts(profile)
 
+    def _k(self, key):
+        if self._only is not None:
+            self._rename.key = key or ""
+
     def ok(self, rule, instance, loc="", detail=""):
+        self._k(instance)
         if rule in self._rename:
             self._c.ok(self._rename[rule], instance, loc, detail)
 
     def bad(self, rule, key, loc, detail, path=None, **extra):
+        self._k(key)
         if rule in self._rename:
             self._c.bad(self._rename[rule], key, loc, detail, path, **extra)
 
     def check(self, cond, rule, key, loc, detail_bad, detail_ok="", path=None):
+        self._k(key)
         if rule in self._rename:
             self._c.check(cond, self._rename[rule], key, loc, detail_bad, detail_ok, path)
         return cond
 
     def floor(self, rule, what, count, minimum):
+        self._k(what)
         if rule in self._rename:
             return self._c.floor(self._rename[rule], what, count, minimum)
         return count >= minimum
